@@ -46,7 +46,9 @@ Definition verdict (c : c3case) : N :=
     let o_repr := representable m in
     let o_un := (csum_un =? 65536) || (csum_un =? csum_in_bytes kind hs b) in
     let bad := valid && negb (o_len && o_spec && o_csum && o_rt && o_repr && o_un) in
-    let known_tag := bad && noncanon && o_len && o_csum && o_un in
+    (* noncanon: the harness saw an accepted model whose catch-all enum variant spells a known
+       number come back from the decoder as the named variant (Rust ==) *)
+    let known_tag := noncanon in
     let dirty := valid && negb dirty_same in
     (if mismatch then 1 else 0) + (if bad && negb known_tag then 2 else 0)
     + (if known_tag then 16 else 0) + (if dirty then 32 else 0)
